@@ -14,6 +14,8 @@ for d in sorted(glob.glob('seeded/*/')):
     meta = json.load(open(d + 'meta.json'))
     det = meta.get('detected_by') or {}
     props = [p for p, v in sorted(det.items()) if isinstance(v, dict) and v.get('exit') == 1]
+    if not props and meta.get('detected_by_thorough_tier'):
+        continue      # (reported by the thorough tier only: not part of this quick re-check)
     if not props:
         props = list(meta.get('properties') or [])
     print(name, ' '.join(props[:3]))
